@@ -632,7 +632,7 @@ func (g *gen) expr(kind string, depth int) any {
 			}
 			return out
 		case 5:
-			return []any{"string", g.arg(pick(g.t, []string{"int", "str", "time", "float", "list"}, "strof"), depth-1)}
+			return []any{"string", g.arg(pick(g.t, []string{"int", "str", "time", "float", "list", "objlist", "map", "objlist"}, "strof"), depth-1)}
 		case 6:
 			return []any{pick(g.t, []string{"sum", "+"}, "n"), g.arg("str", depth-1), g.arg(pick(g.t, []string{"str", "int"}, "k"), depth-1)}
 		case 7:
